@@ -4,11 +4,12 @@ C26 — executable model of `oxidize-pdf-core/src/text/cmap.rs`:
 `to_unicode`, `increment_be`, `calculate_offset`, `CodeRange::contains`,
 `ToUnicodeCMapBuilder::build`, `string_to_utf16_be_bytes`, `hex_string`.
 
-Bytes and code units are `Nat`; a CMap text is a `List Nat` of bytes.  The tokenizer model covers
-ASCII input (the harness only sends ASCII CMap texts; `CMap::parse` rejects non-UTF-8 and the
-Latin-1 re-interpretation of multi-byte characters inside `<…>` is outside the model — a request
-with a byte ≥ 0x80 is answered `na` by the driver).  `usize` arithmetic in `calculate_offset` is
-modelled in ℕ (no overflow below 8-byte codes; code spaces are 1–4 bytes).
+Bytes and code units are `Nat`; a CMap text is a `List Nat` of bytes.  The tokenizer works on the
+BYTES of the text and turns every byte into one `char` (Latin-1 reading) when it builds names,
+keywords and the inside of `<…>`; so names/keywords are lists of char codes 0..255 here, and
+`parse_hex` sees chars 0..255.  `CMap::parse` rejects texts that are not UTF-8 (`parseText`).
+`usize` arithmetic in `calculate_offset` is modelled in ℕ (no overflow below 8-byte codes; code
+spaces are 1–4 bytes).
 Import-free.
 -/
 namespace OxiVerif.C26
@@ -61,7 +62,7 @@ def addCarry (dst : Bytes) (k : Nat) : Bytes := (addRev dst.reverse k).reverse
 /-- `calculate_offset` (saturating) -/
 def calculateOffset (code start : Bytes) : Nat := be code - be start
 
-/-! ### `parse_hex` (ASCII) -/
+/-! ### `parse_hex` (chars 0..255: the tokenizer hands every byte over as one char) -/
 
 def isWsChar (c : Nat) : Bool :=   -- `char::is_whitespace` below U+0100
   (0x09 ≤ c && c ≤ 0x0D) || c == 0x20 || c == 0x85 || c == 0xA0
@@ -94,12 +95,47 @@ def dropWhileEq (c : Nat) : Bytes → Bytes
   | [] => []
   | x :: r => if x == c then dropWhileEq c r else x :: r
 
-/-- `parse_hex(s)`: trim leading `<`, trailing `>`, drop white space, pairs of hex digits. -/
+/-- `parse_hex(s)`: trim leading `<`, trailing `>`, drop white space (`char::is_whitespace`), refuse
+anything non-ASCII (`!clean.is_ascii()`), then pairs of hex digits. -/
 def parseHex (s : Bytes) : Option Bytes :=
   let s := dropWhileEq 0x3C s
   let s := (dropWhileEq 0x3E s.reverse).reverse
   let clean := s.filter fun c => !isWsChar c
-  if clean.length % 2 != 0 then none else hexPairs clean
+  if clean.any (fun c => c ≥ 0x80) then none
+  else if clean.length % 2 != 0 then none else hexPairs clean
+
+/-! #### the definition before the repair (kept as the regression the check must catch)
+`clean` was a `String`; `clean.len()` counted UTF-8 bytes (2 per char ≥ 0x80) and the loop took
+`&clean[i..i + 2]` at BYTE offsets — a panic when `i` or `i + 2` is not a char boundary. -/
+
+inductive HexOld where
+  | panic                      -- `byte index … is not a char boundary`
+  | res (r : Option Bytes)
+  deriving DecidableEq, Repr
+
+/-- UTF-8 image of a string of chars 0..255 -/
+def latin1Utf8 (cs : Bytes) : Bytes :=
+  cs.flatMap fun c => if c < 0x80 then [c] else [0xC0 + c / 64, 0x80 + c % 64]
+
+def isContByte (b : Nat) : Bool := 0x80 ≤ b && b ≤ 0xBF
+
+/-- the `for i in (0..len).step_by(2)` loop over the UTF-8 bytes; `rest` starts at a byte offset `i` -/
+def hexPairsOld : Bytes → List Nat → HexOld
+  | [], acc => .res (some acc.reverse)
+  | [_], _ => .panic                         -- unreachable: the length is even
+  | a :: b :: r, acc =>
+    -- `i` is a boundary iff `a` is not a continuation byte; `i + 2` iff the next byte is not one
+    if isContByte a || (r.head?.map isContByte).getD false then .panic
+    else
+      match hexPair a b with
+      | some v => hexPairsOld r (v :: acc)
+      | none => .res none
+
+def parseHexOld (s : Bytes) : HexOld :=
+  let s := dropWhileEq 0x3C s
+  let s := (dropWhileEq 0x3E s.reverse).reverse
+  let clean := latin1Utf8 (s.filter fun c => !isWsChar c)
+  if clean.length % 2 != 0 then .res none else hexPairsOld clean []
 
 /-! ### `tokenize_cmap` -/
 
@@ -317,8 +353,18 @@ def lookupSingle : List (Bytes × Bytes) → Bytes → Option Bytes
   | [], _ => none
   | (k, v) :: r, c => if k == c then some v else lookupSingle r c
 
-/-- `CodeRange::contains` -/
+/-- the `zip … all` of `CodeRange::contains`: every byte between the corresponding bounds -/
+def bytesWithin : Bytes → Bytes → Bytes → Bool
+  | c :: cs, l :: ls, h :: hs => l ≤ c && c ≤ h && bytesWithin cs ls hs
+  | _, _, _ => true
+
+/-- `CodeRange::contains` (byte-wise since the repair) -/
 def rangeContains (r : Bytes × Bytes) (code : Bytes) : Bool :=
+  if code.length != r.1.length || code.length != r.2.length then false
+  else bytesWithin code r.1 r.2
+
+/-- `CodeRange::contains` before the repair: a numeric (lexicographic) interval -/
+def rangeContainsOld (r : Bytes × Bytes) (code : Bytes) : Bool :=
   if code.length != r.1.length || code.length != r.2.length then false
   else leLex r.1 code && leLex code r.2
 
@@ -400,6 +446,10 @@ def utf8Strict : Nat → Bytes → Option (List Nat)
 
 def toUnicode (mapped : Bytes) : Option (List Nat) :=
   if mapped.length % 2 == 0 then utf16Strict (units mapped) else utf8Strict mapped.length mapped
+
+/-- `CMap::parse(data)`: `std::str::from_utf8(data)` must succeed (`none` = `Err`), then tokens. -/
+def parseText (text : Bytes) : Option CMap :=
+  if (utf8Strict text.length text).isSome then some (parse text) else none
 
 /-! ### `ToUnicodeCMapBuilder` -/
 
